@@ -27,7 +27,7 @@ theorem nameOf_lt (g : Graph) (i : Nat) (hi : i < g.nodes.length) :
   rfl
 
 /-- with unique names, looking up the name of position `i` gives `i` back (and fails on the empty graph) -/
-theorem indexOf?_nameOf (g : Graph) (hn : g.names.Nodup) (i j : Nat)
+theorem indexOf?_nameOf_cache (g : Graph) (hn : g.names.Nodup) (i j : Nat)
     (hi : g.nodes ≠ [] → i < g.nodes.length) (h : g.indexOf? (nameOf g i) = some j) : j = i := by
   by_cases he : g.nodes = []
   · unfold Graph.indexOf? at h
@@ -96,8 +96,8 @@ theorem ensureExit_ext {fl : Flavor} {g g' : Graph} {cur : Nat} (hn : g.names.No
   split_ifs at h with hh
   · cases h; exact ArcExt.refl g
   · obtain ⟨i, j, a, hi, hj, rfl⟩ := addArcOrFail_some h
-    have ei := indexOf?_nameOf g hn cur i hcur hi
-    have ej := indexOf?_nameOf g hn 0 j (fun he => List.length_pos_iff.mpr he) hj
+    have ei := indexOf?_nameOf_cache g hn cur i hcur hi
+    have ej := indexOf?_nameOf_cache g hn 0 j (fun he => List.length_pos_iff.mpr he) hj
     subst ei ej
     have hh' : dictHas g.arcs (i, 0) = false := by simpa [Graph.hasArc] using hh
     refine ⟨rfl, ?_, ?_⟩
